@@ -109,7 +109,7 @@ CLAIMED = {
     'C14': dict(
         text='Unbounded proof for interp_array_to_approx_dt in the three regimes (refine / equal / decimate) x even in {T,F}: returned step positive and <= target, dt/new_dt an integer '
              '(refine) or reciprocal integer (decimate), original samples retained at k*f, output a subsequence when decimating, length formula incl. even rule, every output within the input range, input not written.',
-        note='Float-only quotient corner (K4) is outside the exact-arithmetic idealisation. resample_to_approx_dt: see evidence.',
+        note='Float-only quotient corner (K4) is outside the exact-arithmetic idealisation. resample_to_approx_dt: structure of the SciPy call proved; its label/count inconsistency is known finding K2 (printed as KNOWN-FINDING).',
         ref='DESIGN.md 7 C14'),
     'C17': dict(
         text='butter_pass (tuple/list/ndarray cut-offs, band/low/high, every remove_gibbs option): unbounded proof that exactly one butter() and one filtfilt() call is made with the filter type from the None pattern, the cut-off normalised by 0.5/dt, the requested order, the caller\'s cut-off container left unmodified, '
